@@ -8,6 +8,7 @@ import gc
 import os
 import random
 import sqlite3
+import sys
 from pathlib import Path
 
 from simkit import canon, core, procs, sqlshim, texts, util
@@ -30,8 +31,8 @@ class Engine:
     # -- runner interface ------------------------------------------------------------------
     def configs(self, tier, prop):
         if tier == "quick":
-            return [("base", 2600), ("crash", 1000), ("stall", 400), ("crowd", 120)]
-        return [("base", 100_000), ("stall", 40_000), ("crash", 60_000), ("crowd", 6_000)]
+            return [("base", 2600), ("crash", 1000), ("stall", 400), ("crowd", 120), ("fine", 300)]
+        return [("base", 100_000), ("stall", 40_000), ("crash", 60_000), ("crowd", 6_000), ("fine", 40_000)]
 
     def chunk_size(self, config, tier):
         return 50
@@ -92,6 +93,13 @@ class Engine:
                                        "dur_us": int(10 ** rng.uniform(5, 7))})
         if config == "crash":
             plan["crash"] = {"actor": rng.randrange(n_act), "at_step": rng.randint(1, 45)}
+        if config == "fine":
+            # line-level pre-emption inside the cache code (not only at the seams): check-then-act sequences between two
+            # seam calls (exists() / mkdir / create, the per-process memo) become interleavable; a third of these runs
+            # also kill a process at such a point
+            plan["fine"] = True
+            if rng.random() < 0.33:
+                plan["crash"] = {"actor": rng.randrange(n_act), "at_step": rng.randint(1, 220)}
         plan["holders"] = []
         if config == "stall" and rng.random() < 0.5:
             # a process stalled in the middle of its COMMIT: it holds the EXCLUSIVE (or RESERVED) lock for that long.
@@ -162,6 +170,11 @@ class Engine:
         if plan["gc_latency_us"] != 0:
             p = copy.deepcopy(plan)
             p["gc_latency_us"] = 0
+            yield p
+        if plan.get("fine"):
+            p = copy.deepcopy(plan)
+            p["fine"] = False
+            p["schedule"] = {"picks": [], "costs": []}
             yield p
         if any(plan.get("labels") or []):
             p = copy.deepcopy(plan)
@@ -279,14 +292,26 @@ class Engine:
                 if a is not None:
                     d = str(detail)
                     parts = d.split(" ")
-                    last_seam[a.idx] = kind if kind != "exec" else " ".join(parts[1:3]).upper()
+                    if kind != "line":
+                        last_seam[a.idx] = kind if kind != "exec" else " ".join(parts[1:3]).upper()
                 return orig_yield(kind, detail)
 
             sched.yield_point = yp
             live_by_proc = {}
 
+            tracer = self._line_tracer(sched, sprocs, bump) if plan.get("fine") else None
+
             def body(spec, idx):
                 def run(actor):
+                    if tracer is not None:
+                        sys.settrace(tracer)
+                    try:
+                        calls(actor)
+                    finally:
+                        if tracer is not None:
+                            sys.settrace(None)
+
+                def calls(actor):
                     for ci, call in enumerate(spec["calls"]):
                         call_id = (idx, ci)
                         sched.yield_point("call_start", "t%d" % call["text"])
@@ -426,6 +451,31 @@ class Engine:
                                 "later sequential parse of text %d raised %r" % (ti, e))
                         break
             return self._finish(plan, res, log, clock, counts, sched, cap, viol)
+
+    @staticmethod
+    def _line_tracer(sched, sprocs, bump):
+        """sys.settrace function for an actor thread: every line event in a module-level function of the parser module
+        under test (parse, _parse_cached, _check_database_structure, helpers a change may add ...; not the ANTLR listener
+        classes, not _parse itself) is a yield point.  A SimCrash raised here surfaces in the traced frame, as a kill at
+        that line would."""
+        files = {sp.mod.__dict__.get("__file__") or "" for sp in sprocs}
+        files |= {os.path.realpath(f) for f in files}
+        skip = {"_parse", "file_to_tree", "<module>"}
+
+        def local(frame, event, arg):
+            if event == "line":
+                co = frame.f_code
+                bump("probe:line_yield")
+                sched.yield_point("line", "%s:%d" % (co.co_name, frame.f_lineno - co.co_firstlineno))
+            return local
+
+        def tracer(frame, event, arg):
+            co = frame.f_code
+            if co.co_filename in files and "." not in co.co_qualname and co.co_name not in skip:
+                return local
+            return None
+
+        return tracer
 
     def _finish(self, plan, res, log, clock, counts, sched, cap, viol):
         res["plan"] = plan
